@@ -1,4 +1,7 @@
 import Tickit.Proof.WinFocus
+import Tickit.Proof.WinFocusReq
+import Tickit.Proof.WinFocusHist
+import Tickit.Proof.WinFocusRestack
 import Tickit.Gen.WinFocusSrc
 /-
   C15 — After a flush the terminal cursor reflects the focused window, or is hidden.
@@ -315,14 +318,60 @@ theorem restore_requested_take_focus (fx : Fixes) (t : Tree) (win : Nat) (r : Tr
   focusGained_requests fx _ _ _ _ _ h hp
 
 /-- The clause for `take_focus` in full: also below an invisible ancestor, where nothing is requested and nothing has
-    to be (the focus chain from the root is untouched).  OPEN — the visible-path half is `restore_requested_take_focus`. -/
+    to be (the focus chain from the root and the composition are untouched). -/
 def take_focus_requests_full (fx : Fixes) : Prop :=
   ∀ (t : Tree) (win : Nat) (r : Tree × List Event), wfB t = true → takeFocus fx t win = .ok r → Requests t r.1
 
-/-- `hide`, `show`, `close` request what the property needs (full statement; false of the unchanged library when the
-    window exposes nothing). -/
+/-- … and it holds, for every state of the source (`Proof/WinFocusReq.lean`: once the climb of `_focus_gained` touches
+    the focus chain it reaches the root and requests the restore; otherwise it writes only windows off the chain, and
+    never a field the composition reads). -/
+theorem take_focus_requests (fx : Fixes) : take_focus_requests_full fx :=
+  fun _ _ _ hwf h => takeFocus_requests hwf h
+
+/-- `Good15 t` (Proof/WinFocusReq.lean): the store invariant `wfB`, the structural invariants of the window engine
+    (C01: parent pointers agree with child lists, no repeated children, one root window at the origin, positive size),
+    non-empty damage rectangles, and the flag discipline (recorded damage is flagged; a pending expose or restore keeps
+    the flush from being skipped).  `good15B` is its executable form (checked by the driver on every observed tree).
+
+    `hide`, `show`, `close` and a geometry change request what the property needs (full statement; false of the
+    unrepaired model when the window exposes nothing). -/
 def hide_requests_full (fx : Fixes) : Prop :=
-  ∀ (t t' : Tree) (win : Nat), wfB t = true → hideWin fx t win = .ok t' → Requests t t'
+  ∀ (t t' : Tree) (win : Nat), Good15 t → hideWin fx t win = .ok t' → Requests t t'
+
+/-- `restore_requested` for `hide`, `show`, `close` (repaired source) and for a geometry change followed by the exposes
+    of the old and the new area (C01's proviso; any window but the root): afterwards a restore or an expose is pending
+    and the flush will not be skipped, or `cursorSpec` is what it was.  Built on the window engine's damage
+    specification (C01 `hide_step`, `show_step`, `close_step`, `geom_step`): every terminal cell whose owner changes is
+    covered by the damage the operation records — applied to the screen that shows in every cell who owns it. -/
+theorem restore_requested_hide (fx : Fixes) (hfx1 : fx.hiddenRoot = true) (hfx2 : fx.chainRestore = true) :
+    hide_requests_full fx :=
+  fun _ _ _ hg h => hide_requests hfx1 hfx2 hg h
+
+theorem restore_requested_show (fx : Fixes) (hfx2 : fx.chainRestore = true) (t t' : Tree) (win : Nat)
+    (hg : Good15 t) (h : showWin fx t win = .ok t') : Requests t t' :=
+  show_requests hfx2 hg h
+
+theorem restore_requested_close (fx : Fixes) (hfx2 : fx.chainRestore = true) (t t' : Tree) (win : Nat)
+    (hg : Good15 t) (h : closeWin fx t win = .ok t') : Requests t t' :=
+  close_requests hfx2 hg h
+
+theorem restore_requested_move (t t' : Tree) (win : Nat) (rect : Rect) (hg : Good15 t) (h0 : win ≠ 0)
+    (h : WinFlush.setGeometryExposed t (treeFuel t) win rect = .ok t') : Requests t t' :=
+  move_requests hg h0 h (setGeometryExposed_wf hg.wf h)
+
+/-- A restacking request only queues: the tree, hence `cursorSpec`, is untouched (its effect comes with the flush). -/
+theorem restore_requested_restack (t t' : Tree) (ch : Change) (win : Nat)
+    (h : requestHierarchyChange t (treeFuel t) ch win = .ok t') : Requests t t' := by
+  right
+  apply cursorSpec_wins
+  unfold requestHierarchyChange at h
+  simp only [bind_ok] at h
+  obtain ⟨w, _, h⟩ := h
+  split at h
+  · simp only [pure_ok] at h; subst h; rfl
+  · simp only [bind_ok, pure_ok] at h
+    obtain ⟨_, _, h⟩ := h
+    subst h; rfl
 
 /-- root 0, child 1 (focused itself, then its child took the focus), grandchild 2 lying outside window 1;
     nothing pending.  History: `win 1 0 1 1 3 3 0; win 2 1 5 5 1 1 0; focus 1; focus 2; flush`. -/
@@ -337,7 +386,7 @@ def hideCheck (fx : Fixes) (t : Tree) (win : Nat) : Bool :=
   | .ub _ => true
 
 /-- The full statement implies the executable check on any concrete instance. -/
-def hideCheck_of_full {fx : Fixes} (h : hide_requests_full fx) (t : Tree) (hwf : wfB t = true) (win : Nat) :
+def hideCheck_of_full {fx : Fixes} (h : hide_requests_full fx) (t : Tree) (hwf : Good15 t) (win : Nat) :
     hideCheck fx t win = true := by
   unfold hideCheck
   split
@@ -352,144 +401,138 @@ def hideCheck_of_full {fx : Fixes} (h : hide_requests_full fx) (t : Tree) (hwf :
     at window 1's cursor cell. -/
 theorem hide_requests_counterexample : ¬ hide_requests_full Fixes.none := by
   intro h
-  have := hideCheck_of_full h outsideChildTree (by decide) 2
+  have := hideCheck_of_full h outsideChildTree (good15_of_B (by decide)) 2
   revert this
   decide
 
-/-! ### the property over histories (full statement; OPEN) -/
+/-! ### the property over histories
 
-/-- The operations the property quantifies over.  A geometry change comes with the exposes of the old and the new area
-    in the parent (C01's proviso, adopted by the property's design). -/
-inductive Op where
-  | newWin (parent : Nat) (rect : Rect) (rootParent hidden lowest steal : Bool)
-  | focus (win : Nat)
-  | curpos (win : Nat) (line col : Int)
-  | curvis (win : Nat) (v : Int)
-  | curshape (win : Nat) (v : Int)
-  | curblink (win : Nat) (v : Int)
-  | notify (win : Nat) (v : Int)
-  | showW (win : Nat)
-  | hideW (win : Nat)
-  | closeW (win : Nat)
-  | restack (ch : Change) (win : Nat)
-  | move (win : Nat) (rect : Rect)
-  | exposeW (win : Nat) (rect : Option Rect)
-  | flush
-
-/-- Tree and terminal cursor. -/
-structure HSt where
-  tree : Tree
-  term : TermCursor := {}
-
-def stepOp (fx : Fixes) (s : HSt) : Op → Res HSt
-  | .newWin p r a b c d => do
-    let x ← newWindow s.tree (treeFuel s.tree) p r a b c d
-    pure { s with tree := x.1 }
-  | .focus w => do let x ← takeFocus fx s.tree w; pure { s with tree := x.1 }
-  | .curpos w l c => do let t ← setCursorPosition s.tree w l c; pure { s with tree := t }
-  | .curvis w v => do let t ← setCursorVisible s.tree w v; pure { s with tree := t }
-  | .curshape w v => do let t ← setCursorShape s.tree w v; pure { s with tree := t }
-  | .curblink w v => do let t ← setCursorBlink s.tree w v; pure { s with tree := t }
-  | .notify w v => do let t ← setFocusChildNotify s.tree w v; pure { s with tree := t }
-  | .showW w => do let t ← showWin fx s.tree w; pure { s with tree := t }
-  | .hideW w => do let t ← hideWin fx s.tree w; pure { s with tree := t }
-  | .closeW w => do let t ← closeWin fx s.tree w; pure { s with tree := t }
-  | .restack ch w => do let t ← requestHierarchyChange s.tree (treeFuel s.tree) ch w; pure { s with tree := t }
-  | .move w r => do
-    let ww ← WinTree.get s.tree w
-    let x ← setGeometry s.tree w r
-    match ww.parent with
-    | none => pure { s with tree := x.1 }
-    | some p => do
-      let t1 ← expose x.1 (treeFuel x.1) p (some ww.rect)
-      let t2 ← expose t1 (treeFuel t1) p (some r)
-      pure { s with tree := t2 }
-  | .exposeW w r => do let t ← expose s.tree (treeFuel s.tree) w r; pure { s with tree := t }
-  | .flush => do
-    let o ← WinFocus.flush fx s.tree
-    pure { tree := o.tree, term := s.term.applyAll o.calls }
-
-def runOps (fx : Fixes) (s : HSt) : List Op → Res HSt
-  | [] => pure s
-  | op :: rest => do
-    let s' ← stepOp fx s op
-    runOps fx s' rest
+    `Op`, `HSt`, `stepOp`, `runOps` (Proof/WinFocusRestack.lean): the operations the property quantifies over — window
+    creation, take-focus, the cursor setters, the notification switch, show, hide, close, restacking requests, a geometry
+    change with the exposes of the old and the new area (C01's proviso), expose, flush — run on a tree and a terminal
+    cursor. -/
 
 /-- C15 over histories: from a fresh root window on an `l × c` terminal, after any history that ends in a flush and
     that the library survives, the terminal cursor is what `cursorSpec` says of the tree.
-    OPEN for every `fx`: it is false of `Fixes.none` (the four counterexamples above are such histories); for the
-    repaired source it follows from `flush_cursor`, the preservation of `wfB`, and `restore_requested` for every
-    operation, of which the cursor setters and the visible-path `take_focus` are proved. -/
+    False of `Fixes.none` (the four counterexamples above are such histories).  For the repaired source it is PROVED
+    (`history_cursor` below) for every history of the library's operations that does not move the root window; such a
+    move is outside C01's proviso (the root has no parent to expose in; its geometry follows the terminal), and with it
+    the statement is false (`history_full_root_move_counterexample`) — that is all that keeps this a `def`. -/
 def history_full (fx : Fixes) : Prop :=
   ∀ (l c : Int) (ops : List Op) (s : HSt), 0 < l → 0 < c →
     runOps fx { tree := newRoot l c } (ops ++ [.flush]) = .ok s → s.term.matches (cursorSpec s.tree) = true
 
-/-- The store invariant is preserved by every operation (full statement; OPEN for `newWin`, `closeW` and for a flush
-    whose queue was filled by something else than the four restacking requests). -/
+/-- **After every flush the cursor equals `cursorSpec`**, over whole histories, for the source as repaired in /repo:
+    every history of window creation, take-focus, cursor position / visibility / shape / blink changes, notification
+    switches, show, hide, close, raise, raise-to-front, lower, lower-to-back (queued, and applied by the next flush
+    together with their exposes), geometry changes of any window but the root (with the proviso's exposes), expose and
+    flush, in any order and of any length, from a fresh root window on any terminal, that ends in a flush.
+    (`Op.plain`: a restacking request is one of the four kinds the API offers; the root window is not moved.)  The
+    composition of `restore_spec`, `flush_cursor`, `restore_requested` for every operation (C01's damage specification
+    underneath), the step lemma for `_do_hierarchy_change` inside the flush (`restack_apply`: a reordered child list
+    changes ownership only inside the exposed rectangle), the flag discipline, and the preservation of `Good15`. -/
+theorem history_cursor (fx : Fixes) (hfx1 : fx.hiddenRoot = true) (hfx2 : fx.chainRestore = true)
+    (l c : Int) (hl : 0 < l) (hc : 0 < c) (ops : List Op) (hplain : ∀ op ∈ ops, op.plain) (s : HSt)
+    (h : runOps fx { tree := newRoot l c } (ops ++ [.flush]) = .ok s) :
+    s.term.matches (cursorSpec s.tree) = true :=
+  WinFocus.history_cursor hfx1 hfx2 l c hl hc ops hplain s h
+
+/-- Why `history_full` keeps the restriction: `tickit_window_set_geometry` on the *root* window (which has no parent in
+    which the proviso's exposes could be made) changes every absolute position and requests nothing; the next flush
+    leaves the cursor where it was.  Replayed on the library: `new 6 10; win 1 0 1 1 3 3 0; curpos 1 1 1; focus 1; flush;
+    geom 0 1 0 6 10; flush` — the cursor stays at 2,2 where `cursorSpec` says 3,2.  (The library itself only resizes the
+    root, from the terminal's resize event, keeping it at 0,0.) -/
+theorem history_full_root_move_counterexample : ¬ history_full Fixes.all := by
+  intro h
+  have := h 6 10 [.newWin 0 ⟨1, 1, 3, 3⟩ false false false false, .curpos 1 1 1, .focus 1, .flush, .move 0 ⟨1, 0, 6, 10⟩]
+    _ (by decide) (by decide) rfl
+  revert this
+  decide
+
+/-- … and at every flush in the middle of such a history too: the invariant `HInv` (store and flags in order, only
+    restacking requests queued, cursor right or a restore pending) holds after every operation, and after a flush the
+    cursor is right. -/
+theorem history_every_flush (fx : Fixes) (hfx1 : fx.hiddenRoot = true) (hfx2 : fx.chainRestore = true)
+    (l c : Int) (hl : 0 < l) (hc : 0 < c) (ops : List Op) (hplain : ∀ op ∈ ops, op.plain) (s s' : HSt)
+    (h : runOps fx { tree := newRoot l c } ops = .ok s) (hf : stepOp fx s .flush = .ok s') :
+    s'.term.matches (cursorSpec s'.tree) = true :=
+  (flush_step hfx1 (runOps_inv hfx1 hfx2 ops _ s hplain (hinv_newRoot l c hl hc) h) hf).2
+
+/-- Every operation preserves the invariants (full statement: `Good15`, which contains the store invariant `wfB`). -/
 def wf_preserved_full (fx : Fixes) : Prop :=
-  ∀ (s s' : HSt) (op : Op), wfB s.tree = true → stepOp fx s op = .ok s' → wfB s'.tree = true
+  ∀ (s s' : HSt) (op : Op), Good15 s.tree → stepOp fx s op = .ok s' → Good15 s'.tree
 
-/-- The operations for which preservation of the invariant is proved. -/
-def Op.covered : Op → Bool
-  | .newWin .. | .closeW _ | .flush => false
-  | _ => true
-
-/-- `chain_visible` and the structural invariants survive take-focus, the cursor setters, the notification switch,
-    show, hide, restacking requests, geometry changes with their exposes, and expose — for every tree. -/
-theorem wf_preserved (fx : Fixes) (s s' : HSt) (op : Op) (hc : op.covered = true) (hwf : wfB s.tree = true)
-    (hs : stepOp fx s op = .ok s') : wfB s'.tree = true := by
+/-- `Good15` — `wfB` with `chain_visible`, the window engine's structural invariants, the flag discipline — survives
+    window creation, take-focus, the cursor setters, the notification switch, show, hide, close, restacking requests,
+    geometry changes of any window but the root with their exposes, and expose, for every tree and every state of
+    the source.  (The flush: `flush_preserves_good` below.) -/
+theorem wf_preserved (fx : Fixes) (s s' : HSt) (op : Op) (hop : op ≠ .flush) (hmv : ∀ w r, op = .move w r → w ≠ 0)
+    (hg : Good15 s.tree) (hs : stepOp fx s op = .ok s') : Good15 s'.tree := by
   cases op with
-  | newWin => cases hc
-  | closeW => cases hc
-  | flush => cases hc
+  | flush => exact absurd rfl hop
+  | newWin p r a b c d =>
+    simp only [stepOp, bind_ok, pure_ok] at hs
+    obtain ⟨x, hx, hs⟩ := hs; subst hs
+    obtain ⟨t', id⟩ := x
+    exact (newWindow_step hg hx).1
   | focus w =>
     simp only [stepOp, bind_ok, pure_ok] at hs
-    obtain ⟨x, hx, hs⟩ := hs; subst hs; exact takeFocus_wf hwf hx
+    obtain ⟨x, hx, hs⟩ := hs; subst hs; exact takeFocus_good hg hx
   | curpos w l c =>
     simp only [stepOp, bind_ok, pure_ok] at hs
     obtain ⟨x, hx, hs⟩ := hs; subst hs
-    exact cursor_setter_wf (fun cu => { cu with line := l, col := c }) hwf hx
+    exact cursor_setter_good (fun cu => { cu with line := l, col := c }) hg hx
   | curvis w v =>
     simp only [stepOp, bind_ok, pure_ok] at hs
     obtain ⟨x, hx, hs⟩ := hs; subst hs
-    exact cursor_setter_wf (fun cu => { cu with visible := bit1 v }) hwf hx
+    exact cursor_setter_good (fun cu => { cu with visible := bit1 v }) hg hx
   | curshape w v =>
     simp only [stepOp, bind_ok, pure_ok] at hs
     obtain ⟨x, hx, hs⟩ := hs; subst hs
-    exact cursor_setter_wf (fun cu => { cu with shape := v }) hwf hx
+    exact cursor_setter_good (fun cu => { cu with shape := v }) hg hx
   | curblink w v =>
     simp only [stepOp, bind_ok, pure_ok] at hs
     obtain ⟨x, hx, hs⟩ := hs; subst hs
-    exact cursor_setter_wf (fun cu => { cu with blink := if v ≠ 0 then 1 else 0 }) hwf hx
+    exact cursor_setter_good (fun cu => { cu with blink := if v ≠ 0 then 1 else 0 }) hg hx
   | notify w v =>
     simp only [stepOp, bind_ok, pure_ok] at hs
-    obtain ⟨x, hx, hs⟩ := hs; subst hs; exact notify_wf hwf hx
+    obtain ⟨x, hx, hs⟩ := hs; subst hs; exact notify_good hg hx
   | showW w =>
     simp only [stepOp, bind_ok, pure_ok] at hs
-    obtain ⟨x, hx, hs⟩ := hs; subst hs; exact showWin_wf hwf hx
+    obtain ⟨x, hx, hs⟩ := hs; subst hs; exact show_good hg hx
   | hideW w =>
     simp only [stepOp, bind_ok, pure_ok] at hs
-    obtain ⟨x, hx, hs⟩ := hs; subst hs; exact hideWin_wf hwf hx
+    obtain ⟨x, hx, hs⟩ := hs; subst hs; exact hide_good hg hx
+  | closeW w =>
+    simp only [stepOp, bind_ok, pure_ok] at hs
+    obtain ⟨x, hx, hs⟩ := hs; subst hs; exact close_good hg hx
   | restack ch w =>
     simp only [stepOp, bind_ok, pure_ok] at hs
-    obtain ⟨x, hx, hs⟩ := hs; subst hs; exact requestHierarchyChange_wf hwf hx
+    obtain ⟨x, hx, hs⟩ := hs; subst hs; exact restack_request_good hg hx
   | move w r =>
-    simp only [stepOp, bind_ok] at hs
-    obtain ⟨ww, _, x, hx, hs⟩ := hs
-    have h1 := setGeometry_wf hwf hx
-    split at hs
-    · simp only [pure_ok] at hs; subst hs; exact h1
-    · simp only [bind_ok, pure_ok] at hs
-      obtain ⟨t1, ht1, t2, ht2, hs⟩ := hs
-      subst hs; exact expose_wf (expose_wf h1 ht1) ht2
+    simp only [stepOp, bind_ok, pure_ok] at hs
+    obtain ⟨x, hx, hs⟩ := hs; subst hs; exact move_good hg (hmv w r rfl) hx
   | exposeW w r =>
     simp only [stepOp, bind_ok, pure_ok] at hs
-    obtain ⟨x, hx, hs⟩ := hs; subst hs; exact expose_wf hwf hx
+    obtain ⟨x, hx, hs⟩ := hs; subst hs; exact expose_good hg hx
 
 /-- A flush whose queue holds restacking requests only (all the public API can put there) preserves the invariant. -/
 theorem flush_preserves_wf (fx : Fixes) (t : Tree) (out : FlushOut) (hwf : wfB t = true)
     (hq : ∀ r ∈ t.root.changes, r.change.isRestack = true) (hf : flush fx t = .ok out) : wfB out.tree = true :=
   flush_wf hwf hq hf
+
+/-- … and all of `Good15`: the queued restacking is applied (child lists reordered, the windows' areas exposed), the
+    damage handed out, the flags cleared. -/
+theorem flush_preserves_good (fx : Fixes) (t : Tree) (out : FlushOut) (hg : Good15 t)
+    (hq : ∀ r ∈ t.root.changes, r.change.isRestack = true) (hf : flush fx t = .ok out) : Good15 out.tree :=
+  flush_good hg hq hf
+
+/-- `restore_requested` for the *application* of a queued restacking request inside the flush: afterwards an expose is
+    pending (which makes this very flush restore the cursor) or `cursorSpec` is what it was. -/
+theorem restore_requested_restack_applied (t t' : Tree) (ch : Change) (p c : Nat) (hg : Good15 t)
+    (hch : ch.isRestack = true) (hd : doHierarchyChange t (treeFuel t) ch p c = .ok t') :
+    t'.root.needsExpose = true ∨ cursorSpec t' = cursorSpec t :=
+  (restack_apply (goodF_of_good hg) hch hd).2.2
 
 /-- `flush_cursor` for the repaired `_do_restore`, with every hypothesis on the state *before* the flush. -/
 theorem flush_cursor_repaired (fx : Fixes) (hfx : fx.hiddenRoot = true) (t : Tree) (out : FlushOut)
@@ -585,6 +628,23 @@ example : VisPath demoTree 3 :=
 example : ∃ s, runOps Fixes.none { tree := newRoot 6 10 }
     [.newWin 0 ⟨1, 1, 3, 3⟩ false false false false, .curpos 1 1 2, .focus 1, .flush] = .ok s ∧
     s.term.matches (cursorSpec s.tree) = true ∧ cursorSpec s.tree = some (2, 3, 1) := by
+  refine ⟨_, rfl, by decide, by decide⟩
+/-- a history with restacking: two overlapping siblings, the focused one's cursor cell lies in the overlap; behind its
+    sibling the cursor is hidden, raised to the front it shows, lowered again it is hidden (repaired source) -/
+def restackOps1 : List Op :=
+  [.newWin 0 ⟨1, 1, 3, 3⟩ false false false false, .newWin 0 ⟨2, 2, 3, 3⟩ false false false false,
+   .curpos 1 1 1, .focus 1, .flush]
+example : (∀ op ∈ restackOps1 ++ [.restack .raiseFront 1], op.plain) := by
+  intro op h; simp [restackOps1] at h; rcases h with h | h | h | h | h | h <;> subst h <;> simp [Op.plain, Change.isRestack]
+example : ∃ s, runOps Fixes.all { tree := newRoot 6 10 } restackOps1 = .ok s ∧ cursorSpec s.tree = none ∧
+    s.term.matches none = true := by
+  refine ⟨_, rfl, by decide, by decide⟩
+example : ∃ s, runOps Fixes.all { tree := newRoot 6 10 } (restackOps1 ++ [.restack .raiseFront 1, .flush]) = .ok s ∧
+    cursorSpec s.tree = some (2, 2, 1) ∧ s.term.matches (some (2, 2, 1)) = true := by
+  refine ⟨_, rfl, by decide, by decide⟩
+example : ∃ s, runOps Fixes.all { tree := newRoot 6 10 }
+      (restackOps1 ++ [.restack .raiseFront 1, .flush, .restack .lower 1, .flush]) = .ok s ∧
+    cursorSpec s.tree = none ∧ s.term.matches none = true := by
   refine ⟨_, rfl, by decide, by decide⟩
 
 end Tickit.Props.C15
